@@ -75,10 +75,10 @@ PROPS = {
         partial=["C04_allow_exact over tree histories not proved"]),
     "C05": rt(500, 10000, ["serve", "handle-rejected"],
         "40% malformed / arbitrary-byte patterns, reserved/unknown/duplicate methods, raw paths ('', '*', NUL, 0xff, long), Remove/Clean histories, URL and CheckSyntax on the same strings; every call under recover()",
-        props=["TreeMatch"],
-        level_text="C05_match_no_panic: for every tree whose nodes satisfy the index invariant idx_ok and every path/params, matching never faults (with fuel >= height); C05_build_indexes_ok / C05_sort_node_idx_ok: every index the code builds satisfies idx_ok. Every Go fault site of the modelled code is an explicit Panic result in the model, compared with the implementation's recover() classification.",
-        level_note="partial: idx_ok is proved for every freshly built index but its preservation through the whole-tree update functions is checked at run time (state dump), not proved; net/http glue is exercised only.",
-        partial=["C05_serve_total over histories not proved"]),
+        props=["TreeMatch", "C05hist"],
+        level_text="C05_serve_total: for EVERY history of Handle/Remove/Clean/Use from a new tree (any patterns, any methods, rejected calls included) and every request (any method bytes, any path bytes incl. '' and '*'), dispatch returns a handler and never faults - by the invariant tree_safe (index entries in range, 405 handler wherever handlers exist, root answers) proved for new_tree and preserved by tree_add (through the continuation-passing add_segment/split), tree_remove, tree_clean and tree_apply_mw (C05_add_safe, C05_remove_safe, C05_clean_safe, C05_use_safe, C05_handler_total); C05_match_no_panic, C05_build_indexes_ok, C05_sort_node_idx_ok underneath. Every Go fault site of the modelled code is an explicit Panic result in the model, compared with the implementation's recover() classification.",
+        level_note="proved for dispatch (ServeHTTP's matching and handler lookup). Not proved: that the registration functions themselves never return the model's Panic (slice bounds inside Split/NewSegment, fuel sufficiency of add_segment) - covered by the byte-level fuzzing correspondence; Hosts/version matchers and net/http glue are exercised, not proved.",
+        partial=["C05_handle_error_or_ok (tree_add never returns Panic) not proved"]),
     "C06": {"kind": "conc", "scenario": "c06", "props": ["C06", "ConcGeneric"],
         "quick": {"seconds": 4, "seeds": 1}, "thorough": {"seconds": 60, "seeds": 5},
         "rule": "3 writer goroutines toggling 7 routes (Handle/Remove, incl. registrations that split and re-merge the nodes of the 4 untouched routes) x 6 reader goroutines (ServeHTTP on untouched and toggled routes, OPTIONS, Routes(), strict URL) on a WithLock(true) router, in a subprocess built with -race; every response checked for admissibility",
